@@ -49,7 +49,9 @@ def _subterms(t, out=None):
 
 
 def find_guards(r, b, gs, c, fn, kinds, dist):
-    """Distance guards `dist > bound -> Err` of one body: ({kind: found}, [guard blocks])."""
+    """Distance guards of one body: ({kind: found}, [guard blocks]).  A guard is a two-way test between the distance and
+    a bound (dict_size / bytes produced) one of whose edges reaches only Err; it is decided by its truth table: it must
+    reject exactly dist > bound (so `>=` - which refuses the legal dist == bound - and `> bound + 1` are both reported)."""
     need = {k: False for k in kinds}
     gblocks = []
     for (bb, t, z, nz) in gs:
@@ -57,38 +59,52 @@ def find_guards(r, b, gs, c, fn, kinds, dist):
         if not s:
             continue
         op, a, bnd = s
-        # dist > bound  (or bound < dist)
-        if op == "Gt" and pat.has_arg(a, dist):
-            rej, bound = nz, bnd
-        elif op == "Lt" and pat.has_arg(bnd, dist):
-            rej, bound = nz, a
-        elif op == "Le" and pat.has_arg(a, dist):
-            rej, bound = z, bnd
-        elif op == "Ge" and pat.has_arg(bnd, dist):
-            rej, bound = z, a
+        if pat.has_arg(a, dist) and not pat.has_arg(bnd, dist):
+            dside, bound = a, bnd
+        elif pat.has_arg(bnd, dist) and not pat.has_arg(a, dist):
+            dside, bound = bnd, a
         else:
             continue
-        if pat.has_op(a, ("Add", "Sub")) and pat.has_arg(a, dist) and op in ("Gt", "Le"):
-            continue
         kind = None
-        if pat.has_field(bound, "dict_size") and not pat.has_op(bound, ("Add", "Sub", "Mul")):
+        if pat.has_field(bound, "dict_size") and not pat.has_field(bound, "cursor"):
             kind = "dict_size"
-        elif (pat.has_field(bound, "len") or (pat.has_call(bound, "Vec::len") and pat.has_field(bound, "buf"))) and \
-                not pat.has_op(bound, ("Add", "Sub", "Mul")):
+        elif pat.has_field(bound, "len") or (pat.has_call(bound, "Vec::len") and pat.has_field(bound, "buf")):
             kind = "produced"
         if kind is None or kind not in need:
             continue
+        rej_nz, rej_z = not flow.reaches_ok(b, nz), not flow.reaches_ok(b, z)
         where = pat.where(b, bb)
-        if flow.reaches_ok(b, rej):
-            if r is not None:
-                r.sites += 1
-                r.bad("%s|%s-edge" % (fn, kind), "a distance beyond the %s bound can still be served" % kind, where)
-        else:
+        if rej_nz == rej_z:
+            continue        # not a rejecting test (both edges go on, or both fail)
+        try:
+            tv = {}
+            for d in (0, 1, 2, 5, 6, 7, 4096, 4097):
+                for bv in (0, 1, 5, 6, 4096):
+                    def leaf(q, d=d, bv=bv):
+                        if q[0] == "arg" and q[2] == dist:
+                            return d
+                        if q == bound or (q[0] == "field" and q[1] in ("dict_size", "len")) or (q[0] == "call" and q[1].endswith("::len")):
+                            return bv
+                        raise pat.NotEvaluable(q)
+                    truth = pat.eval_cmp(t, leaf)
+                    tv[(d, bv)] = truth if rej_nz else (not truth)
+        except (pat.NotEvaluable, pat.Overflow):
+            continue
+        want = {k: k[0] > k[1] for k in tv}
+        if r is not None:
+            r.sites += 1
+        if tv == want:
             need[kind] = True
             gblocks.append(bb)
             if r is not None:
-                r.sites += 1
-                r.ok("path", {"fn": fn, "guard": "dist > %s -> Err" % kind})
+                r.ok("evaluation", {"fn": fn, "guard": "rejects exactly dist > %s" % kind})
+        else:
+            k = [k for k in sorted(tv, reverse=True) if tv[k] != want[k]][0]
+            if r is not None:
+                r.bad("%s|%s-guard" % (fn, kind), "the %s guard %s a distance of %d with a bound of %d" % (
+                    kind, "rejects" if tv[k] else "accepts", k[0], k[1]), where)
+            need[kind] = True       # located (and reported): do not report it as missing as well
+            gblocks.append(bb)
     return need, gblocks
 
 
